@@ -176,6 +176,12 @@ def other_kinds(rep, rng, x, X, quick):
         _, w2 = rb.rescale()
         if abs(w2 - 1.0) > 1e-8:
             bad.append(f"re-estimated weight of rescaled basis data is {w2!r}")
+        rs, ws = fresh().rescale(use_argvals_stand=True)
+        if abs(float(rs.rescale(use_argvals_stand=True)[1]) - 1.0) > 1e-8:
+            bad.append("re-estimated weight (use_argvals_stand) of rescaled basis data is not one")
+        ru, wu = fresh().rescale(weights=4.0)
+        if wu != 4.0 or np.max(np.abs(np.asarray(ru.to_grid().values) * 2.0 - np.asarray(fresh().to_grid().values))) > 1e-9 * max(1.0, float(np.max(np.abs(coef)))):
+            bad.append("a user-supplied weight w does not divide basis data by sqrt(w)")
     except ModuleNotFoundError as e:
         rep.notes.append(f"basis monitors skipped: {e}")
     rep.case(("basis", name, coef.tobytes()), kind=f"basis/{name}")
@@ -239,6 +245,22 @@ def other_kinds(rep, rng, x, X, quick):
                 want = src[np.isin(st, tk[ok])] - mvv[idx]
                 if len(want) != ok.sum() or np.max(np.abs(vk[ok] - want), initial=0) > 1e-9 * max(1.0, np.max(np.abs(X))):
                     bad.append("centred values are not values minus the estimated mean at the curve's own points"); break
+            # normalising / rescaling irregular data (same promised effects, smoothing options fixed explicitly)
+            import warnings as _w
+            with _w.catch_warnings():
+                _w.simplefilter("ignore")
+                nr = np.asarray(irr.norm(), float)
+                if np.all(nr > 1e-8) and np.max(np.abs(np.asarray(irr.normalize().norm(), float) - 1.0)) > 1e-8:
+                    bad.append("normalised irregular observations do not have unit norm")
+                ru, wu = irr.rescale(weights=4.0)
+                if wu != 4.0 or any(np.nanmax(np.abs(np.asarray(ru.values[k]) * 2.0 - np.asarray(irr.values[k]))) > 1e-12 * max(1.0, np.max(np.abs(X)))
+                                    for k in range(n)):
+                    bad.append("a user-supplied weight w does not divide the irregular values by sqrt(w)")
+                r1, w1 = irr.rescale(**kw)
+                if w1 > 1e-12:
+                    w2 = float(r1.rescale(**kw)[1])
+                    if abs(w2 - 1.0) > 1e-6:
+                        bad.append(f"re-estimated weight of rescaled irregular data is {w2!r}, not one")
             rep.case(("irr", enc, X.tobytes(), masks.tobytes()), kind=f"irregular/{enc}")
             if bad:
                 rep.violation(f"irregular data ({enc} encoding): " + "; ".join(bad),
